@@ -250,6 +250,7 @@ func c18Endings(r *Run) {
 	}
 	var got []byte
 	var errs []error
+	closeAtOnce := t.Pct(40)
 	r.S.Go("reader", func() {
 		buf := make([]byte, bufSize)
 		for len(errs) < 3 {
@@ -257,6 +258,12 @@ func c18Endings(r *Run) {
 			got = append(got, buf[:n]...)
 			if err != nil {
 				errs = append(errs, err)
+				if len(errs) == 1 && closeAtOnce {
+					// the application gives up on the connection right after the failed
+					// Read: whatever the adapter had to do because of the failure (the
+					// 1003 Close frame for a wrong message type) must already be done
+					nc.Close()
+				}
 				r.S.Park("a.reader.again")
 			}
 		}
